@@ -1333,7 +1333,11 @@ def run(ctx):
                 "random bit patterns; handed over as Python floats, numpy scalars or numpy arrays) persisted through csv+info, "
                 "csv saved again after a reload, summary json, aggregator SearchOutput, database rows (all / minimised), database "
                 "summary, latent samples (csv, aggregator, database), a directory scraped into a database (Aggregator.from_directory + "
-                "Scraper), plus re-saved database fits and real Drawer fits run twice; non-trivial = at least 2 parameters and 2 "
+                "Scraper), plus re-saved database fits and real Drawer fits run twice, plus histories on ONE paths object per storage "
+                "(DirectoryPaths / DatabasePaths: 2-4 updates, each persisting its own sample set -- extended, fresh, reordered, shrunk, "
+                "re-valued, other best sample, an earlier set again -- with reloads through the same object between and after them, "
+                "next to a fresh paths object, a fresh aggregator SearchOutput / the Fit row and an aggregator object made before the "
+                "later updates; non-trivial history = a reload between two saves of different sample sets and a reload after); non-trivial = at least 2 parameters and 2 "
                 "samples and one of {nesting depth >= 2, shared prior, tuple prior, mixed path depth}; distinct = distinct abstract case; "
                 "plus summary statistics: direct quantile(x, q, weights) calls (exactly representable inputs with ties / zero weights / "
                 "equal weights / q in {0, 1, 1/2, 1/1024 grid, outside [0,1]} and arbitrary binary64 inputs, 0-200 samples) and SamplesPDF "
@@ -1501,7 +1505,10 @@ MANIFEST = {
             "and every sample list the reloaded samples give the same value per parameter, log-likelihood, log-prior and weight in "
             "order -- database rows unconditionally (all samples, the minimised list, a scraped directory), csv and summary for the "
             "code as it is now without any guard on parameter names (the earlier failures are kept as *_legacy_refuted statements and "
-            "regression obligations); named json rows of a database fit: the last save wins for every save history; value per path is independent of the prior numbering of a re-created model; hence the same "
+            "regression obligations); named json rows of a database fit: the last save wins for every save history; one store object (DirectoryPaths / "
+            "DatabasePaths / Fit row) over ANY history of saves and loads: every load returns the last save before it, equals a fresh "
+            "reader, and loads never change the store (C09_store_*), tied to the code by histories of updates and reloads run through "
+            "one paths object per storage (samples table, samples_info, summary) and compared load by load; value per path is independent of the prior numbering of a re-created model; hence the same "
             "best-fit vector; plus vm_compute correspondence of keys / lookups / exceptions with the running code on generated model "
             "shapes x extreme floats (Python and numpy) over csv, re-saved csv, aggregator, summary, database, scrape and latent "
             "routes and a direct property oracle incl. real fits run twice; summary statistics: an executable model of quantile() "
